@@ -249,7 +249,7 @@ class PortsConc(BaseEngine):
         if plan['sched']['kind'] != 'replay':
             rng = rng_for('sched', plan.get('sched_seed', 0))
         sched = Sched(TRACED, rng=rng, policy=plan['sched'], decisions=plan.get('decisions'),
-                      max_steps=plan.get('max_steps', 6000), start_time=plan['start_time'], log=log)
+                      max_steps=plan.get('max_steps', 30000), start_time=plan['start_time'], log=log)
         self._saved = (mports.threading, mports.time, mports.random, pqmod.RLock, pqmod.queue,
                        mports.get_sleep_time())
         tshim = simsync.ThreadingShim()
@@ -587,10 +587,17 @@ class PortsConc(BaseEngine):
         except Exception as e:
             raise Violation(f'raised:{type(e).__name__}@{kind}.final-drain', f'final drain raised {e!r}')
 
+        # a run cut short by the step cap (without a starved receiver) is incomplete, not wrong: an
+        # operation that was in flight when the run was aborted may hold a message that nobody got
+        incomplete = sched.abort_reason == 'stepcap'
+        if incomplete:
+            stats['incomplete_runs_stepcap'] += 1
         if kind == 'pq_raw':
-            self._check_raw(plan, hist, received, drained, fed_log, stats, cov)
+            if not incomplete:
+                self._check_raw(plan, hist, received, drained, fed_log, stats, cov)
         else:
-            self._check_history(plan, kind, sent, received, drained, wires, subs, stats, cov, sched)
+            self._check_history(plan, kind, sent, received, drained, wires, subs, stats, cov, sched,
+                                incomplete=incomplete)
         for p in [port] + list(subs):
             try:
                 p.close()
@@ -655,7 +662,7 @@ class PortsConc(BaseEngine):
             stats['probe:two_consumers_got_messages'] += 1
 
     # ------------ history oracle
-    def _check_history(self, plan, kind, sent, received, drained, wires, subs, stats, cov, sched):
+    def _check_history(self, plan, kind, sent, received, drained, wires, subs, stats, cov, sched, incomplete=False):
         n_sub = len(subs) if kind.startswith('multi') else 1
         by_id = {}
         for si, seq, orig, inv, obj in sent:
@@ -716,6 +723,8 @@ class PortsConc(BaseEngine):
             counts[key] += 1
         for key in by_id:
             exp = n_sub
+            if incomplete and counts[key] <= exp:
+                continue
             if counts[key] != exp:
                 raise Violation(f'{"lost" if counts[key] < exp else "duplicated"}@{kind}',
                                 f'message {key} ({by_id[key][0]!r}) was received {counts[key]} time(s), '
